@@ -386,11 +386,13 @@ theorem pyLog_error {x : Num} {e : Err} (h : Elementary.pyLog x = .error e) : e 
     exact Or.inl rfl
 
 /-- `try: math.log(x, base) except ValueError: raise KaRuntimeError` behind `ka_log`'s guards is the model's
-    `log x / log base` — unless `log(float(base))` is `0.0`, where CPython raises `ZeroDivisionError` -/
-theorem tryLog_agree (x base : Num) (hx : cmpLe x (.int 0) = false) (hb : cmpLe base (.int 0) = false)
-    (hz : ∀ lb, Elementary.pyLog base = .ok lb → (lb == 0) = false) :
+    `log x / log base`, the `ZeroDivisionError` of a base that is `1.0` as a float included (it is not a `ValueError`: it passes
+    the `try` and `execute` reports it as "divide by zero"; the model's `Elementary.kaLog` has the same branch) -/
+theorem tryLog_agree (x base : Num) (hx : cmpLe x (.int 0) = false) (hb : cmpLe base (.int 0) = false) :
     pyTry (mathLog2 (.num x) (.num base)) "ValueError" (pyRaise .runtime)
-      = Except.map Val.num (liftE (do let lx ← Elementary.pyLog x; let lb ← Elementary.pyLog base; fin (lx / lb))) := by
+      = Except.map Val.num (liftE (do
+          let lx ← Elementary.pyLog x; let lb ← Elementary.pyLog base
+          if lb == 0 then (Except.error Err.divZero : Except Err Num) else fin (lx / lb))) := by
   simp only [mathLog2, mathLogArg, hx, hb, Bool.false_eq_true, if_false]
   cases hlx : Elementary.pyLog x with
   | error e =>
@@ -400,33 +402,21 @@ theorem tryLog_agree (x base : Num) (hx : cmpLe x (.int 0) = false) (hb : cmpLe 
     | error e =>
       rcases pyLog_error hlb with rfl | rfl <;> rfl
     | ok lb =>
-      have := hz lb hlb
-      simp only [bind, Except.bind, this, Bool.false_eq_true, if_false]
-      cases hf : fin (lx / lb) with
-      | error e =>
-        have : e = .overflow := by
-          simp only [fin] at hf
-          split at hf <;> cases hf
+      cases hz : lb == 0 with
+      | true => simp only [bind, Except.bind, hz, if_true]; rfl
+      | false =>
+        simp only [bind, Except.bind, hz, Bool.false_eq_true, if_false]
+        cases hf : fin (lx / lb) with
+        | error e =>
+          have : e = .overflow := by
+            simp only [fin] at hf
+            split at hf <;> cases hf
+            rfl
+          subst this
           rfl
-        subst this
-        rfl
-      | ok v => rfl
+        | ok v => rfl
 
-/-- under the side condition, the model's explicit `ZeroDivisionError` branch (log of a base that is 1.0 as a float) is dead -/
-theorem kaLog_tail_eq (x base : Num) (hz : ∀ lb, Elementary.pyLog base = .ok lb → (lb == 0) = false) :
-    (do let lx ← Elementary.pyLog x; let lb ← Elementary.pyLog base
-        if lb == 0 then (Except.error Err.divZero : Except Err Num) else fin (lx / lb))
-      = (do let lx ← Elementary.pyLog x; let lb ← Elementary.pyLog base; fin (lx / lb)) := by
-  cases hlx : Elementary.pyLog x with
-  | error e => rfl
-  | ok lx =>
-    cases hlb : Elementary.pyLog base with
-    | error e => rfl
-    | ok lb =>
-      have := hz lb hlb
-      simp only [bind, Except.bind, this, Bool.false_eq_true, if_false]
-
-theorem ka_log_agree (h : NumSem rec) (x base : Num) (hz : ∀ lb, Elementary.pyLog base = .ok lb → (lb == 0) = false) :
+theorem ka_log_agree (h : NumSem rec) (x base : Num) :
     ka_log rec (.num x) (.num base) = bNum2 Elementary.kaLog rec [.num x, .num base] := by
   simp only [ka_log, PyRt.pyInt, h.2.2.2, h.2.1, ok_bind, truthy_b2v, bNum2, Elementary.kaLog, pyRaise_def]
   cases hx : cmpLe x (.int 0) with
@@ -438,21 +428,21 @@ theorem ka_log_agree (h : NumSem rec) (x base : Num) (hz : ∀ lb, Elementary.py
       cases h1 : cmpEq base (.int 1) with
       | true => rfl
       | false =>
-        have := tryLog_agree x base hx hb hz
+        have := tryLog_agree x base hx hb
         simp only [pyRaise_def] at this
-        simp only [Bool.false_eq_true, if_false, pure_def, ok_bind, truthy_b2v, h1, Bool.or_false, this, kaLog_tail_eq x base hz]
+        simp only [Bool.false_eq_true, if_false, pure_def, ok_bind, truthy_b2v, h1, Bool.or_false, this]
 
-theorem ka_ln_agree (h : NumSem rec) (x : Num) (hz : ∀ lb, Elementary.pyLog LogBase.e.num = .ok lb → (lb == 0) = false) :
+theorem ka_ln_agree (h : NumSem rec) (x : Num) :
     ka_ln rec (.num x) = bNum1 (Elementary.body .ln) rec [.num x] := by
-  simpa only [ka_ln, mathE, bNum1, bNum2, Elementary.body, LogBase.num] using ka_log_agree h x (.flt Elementary.eFloat) hz
+  simpa only [ka_ln, mathE, bNum1, bNum2, Elementary.body, LogBase.num] using ka_log_agree h x (.flt Elementary.eFloat)
 
-theorem ka_log10_agree (h : NumSem rec) (x : Num) (hz : ∀ lb, Elementary.pyLog LogBase.ten.num = .ok lb → (lb == 0) = false) :
+theorem ka_log10_agree (h : NumSem rec) (x : Num) :
     ka_log10 rec (.num x) = bNum1 (Elementary.body .log10) rec [.num x] := by
-  simpa only [ka_log10, PyRt.pyInt, bNum1, bNum2, Elementary.body, LogBase.num] using ka_log_agree h x (.int 10) hz
+  simpa only [ka_log10, PyRt.pyInt, bNum1, bNum2, Elementary.body, LogBase.num] using ka_log_agree h x (.int 10)
 
-theorem ka_log2_agree (h : NumSem rec) (x : Num) (hz : ∀ lb, Elementary.pyLog LogBase.two.num = .ok lb → (lb == 0) = false) :
+theorem ka_log2_agree (h : NumSem rec) (x : Num) :
     ka_log2 rec (.num x) = bNum1 (Elementary.body .log2) rec [.num x] := by
-  simpa only [ka_log2, PyRt.pyInt, bNum1, bNum2, Elementary.body, LogBase.num] using ka_log_agree h x (.int 2) hz
+  simpa only [ka_log2, PyRt.pyInt, bNum1, bNum2, Elementary.body, LogBase.num] using ka_log_agree h x (.int 2)
 
 /-- `is_fractional(y)` through a dispatcher that computes `int` and `==` as Ka does is `Num.isFractional` -/
 theorem is_fractional_sem (h : NumSem rec) (y : Num) : is_fractional rec (.num y) = liftE (Num.isFractional y) := by
